@@ -126,8 +126,7 @@ def explore_table(task):
                                         timeout_s=60)
     return {"paths": npaths, "queries": queries, "part": "walker/n%d" % n, "explore_s": time.time() - t0,
             "shapes": len(shapes), "prefixes": prefixes, "task": task,
-            "inconclusive": (["walker n=%d: %d unknown feasibility answers" % (n, ex.n_unknown)]
-                             if ex.n_unknown else [])}
+            "undecided_feasibility": ex.n_unknown}
 
 
 def explore_known(task):
